@@ -21,19 +21,29 @@ pub fn run_case(c: &Value) -> Value {
     arr!(p["expose_headers"], ExposeHeaders);
     if let Some(m) = p["max_age"].as_u64() { cors = cors.MaxAge(m as u32) }
     let built = std::panic::catch_unwind(std::panic::AssertUnwindSafe(|| {
-        // the root application: the CORS fang, then the items of the case's root
-        let mut oh = Ohkami::with((cors,), ());
-        apps::apply_items(&c["app"], &mut oh);
-        oh.test()
+        match c["cors_at"].as_str() {
+            // the policy on a mounted application: everything under that prefix is its scope
+            Some(prefix) => {
+                let mut sub = Ohkami::with((cors,), ());
+                apps::apply_items(&c["app"], &mut sub);
+                Ohkami::new((Box::leak(prefix.to_string().into_boxed_str()).By(sub),)).test()
+            }
+            // the root application: the CORS fang, then the items of the case's root
+            None => { let mut oh = Ohkami::with((cors,), ()); apps::apply_items(&c["app"], &mut oh); oh.test() }
+        }
     }));
     let t = match built { Ok(t) => t, Err(e) => return json!({"build": "refused", "why": panic_msg(e)}) };
     let mut outs = vec![];
     for r in c["reqs"].as_array().unwrap() {
         let mut hs: Vec<(Vec<u8>, Vec<u8>)> = vec![];
-        if r["origin"].as_bool() == Some(true) { hs.push((b"Origin".to_vec(), b"https://client.example".to_vec())) }
-        if let Some(m) = r["acrm"].as_str() { hs.push((b"Access-Control-Request-Method".to_vec(), m.as_bytes().to_vec())) }
-        if let Some(h) = r["acrh"].as_str() { hs.push((b"Access-Control-Request-Headers".to_vec(), h.as_bytes().to_vec())) }
-        let target = unhex(r["p"].as_str().unwrap());
+        // header names are case-insensitive: canonical, lower, UPPER or mixed spelling
+        let sp = |n: &str| -> Vec<u8> { match r["hcase"].as_u64().unwrap_or(0) { 1 => n.to_lowercase().into_bytes(), 2 => n.to_uppercase().into_bytes(),
+            3 => n.chars().enumerate().map(|(i, ch)| if i % 2 == 0 { ch.to_ascii_lowercase() } else { ch.to_ascii_uppercase() }).collect::<String>().into_bytes(), _ => n.as_bytes().to_vec() } };
+        if r["origin"].as_bool() == Some(true) { hs.push((sp("Origin"), b"https://client.example".to_vec())) }
+        if let Some(m) = r["acrm"].as_str() { hs.push((sp("Access-Control-Request-Method"), m.as_bytes().to_vec())) }
+        if let Some(h) = r["acrh"].as_str() { hs.push((sp("Access-Control-Request-Headers"), h.as_bytes().to_vec())) }
+        let mut target = unhex(r["p"].as_str().unwrap());
+        if let Some(prefix) = c["cors_at"].as_str() { let mut t = prefix.as_bytes().to_vec(); t.extend_from_slice(&target); target = t }
         let m = r["m"].as_str().unwrap();
         outs.push(match std::panic::catch_unwind(std::panic::AssertUnwindSafe(|| apps::wire(&t, m, &target, &hs, &[]))) {
             Ok(Ok(w)) => json!({"wire": hex(&w)}), Ok(Err(e)) => json!({"refused": e}), Err(e) => json!({"panic": panic_msg(e)}) });
